@@ -11,7 +11,8 @@ from vlib.runner import Result, SubCheck, Violation
 
 PROPERTY = "C18"
 LEVEL = "exploration"
-RULE = ("A generated history over any policy pair is executed twice: once with every argument as plain Python lists, "
+RULE = ("Decisions also as float32 / int16 / int32 arrays when every label is exactly representable in that type. "
+        "A generated history over any policy pair is executed twice: once with every argument as plain Python lists, "
         "once with each argument rendered in a drawn container - decisions: list / ndarray / Series with a non-default "
         "index; rewards: list / int64, int32, int16, int8, bool, float64, float32 ndarray / Series (also of int8); contexts (training and query): list of lists / "
         "ndarray C-order, Fortran-order, strided view, transposed view, int64 / int32 / int8 / float64 / float32 dtype / DataFrame / Series (one "
